@@ -32,6 +32,14 @@ with `..`; the root form A always uses the lexically normalised root-relative de
 XvcPath::new normalises, unlike a target, which is a glob: K-C18-dotdot).  Besides the abstraction, follow-up commands
 by the real path are compared (`list <dest>`, `rm <dest>; recheck <dest>`), and no form may record a path with `..`.
 
+Names that REPEAT along a path (layout `repeat`): a directory named like its parent (`data/data/x.bin` next to
+`data/x.bin`, three levels `data/data/data/w.bin`), the whole root-relative path of the cwd once more inside it
+(`a/b/a/b/f.txt` next to `a/b/f.txt`), a name equal to its grandparent (`p/q/p/h.txt` next to `p/h.txt`), a file named
+like its directory (`cfg.d/cfg.d`).  Explicit targets typed in the cwd that go THROUGH the repeated name -- so that the
+typed string is, read from the root, the name of ANOTHER recorded path -- as file, `dir/`, `dir` and glob targets, for
+every command family (the disk-side `track` included: it must agree with the store-side families), every file in the
+state in which the family acts on it; root form = the plain join cwd/target (`C18_target_never_reinterpreted`).
+
 Form D (every copy / move case, one in FORM_D_EVERY of the others): `-C <absolute path of cwd>` run with a PROCESS
 working directory outside the repository (form C: process cwd = root), so that anything resolved against the process
 cwd instead of xvc's current directory differs; destination states `untracked` (the destination directory / file exists
@@ -82,6 +90,24 @@ FILES_P = {
 # the minimised layout of seeded/C18-1 (demo.sh): one directory and one sibling whose name extends it
 FILES_M = {'data/a.txt': 'a v1\n', 'data2/b.txt': 'b v1\n'}
 
+# Names that repeat along a path.  A typed target is resolved against the cwd by JOINING, whatever it begins with
+# (Lean: C18_target_never_reinterpreted): typed in `data`, `data/x.bin` is data/data/x.bin although data/x.bin is a
+# recorded path as well.  Shapes: a directory named like its parent (two and three levels), the root-relative path
+# of the cwd repeated inside the cwd (`a/b` inside `a/b`; `a/b/a/m.txt` repeats only its first component), a name equal
+# to its grandparent (`p/q/p`), a file named like its directory (`cfg.d/cfg.d`).  For every inner path the string typed
+# in the cwd names, read from the root, an OUTER path that exists, is recorded and has other bytes.
+FILES_R = {
+    'top.txt': 'top\n',
+    'data/x.bin': 'data x OUTER\n' * 2, 'data/y.bin': 'data y\n' * 3,
+    'data/data/x.bin': 'data data x INNER\n' * 4, 'data/data/z.bin': 'data data z\n' * 5,
+    'data/data/data/w.bin': 'data data data w\n' * 6,
+    'a/f.txt': 'a f\n' * 7, 'a/m.txt': 'a m\n' * 8,
+    'a/b/f.txt': 'a b f OUTER\n' * 9, 'a/b/g.dat': 'a b g dat\n' * 10, 'a/b/a/m.txt': 'a b a m\n' * 11,
+    'a/b/a/b/f.txt': 'a b a b f INNER\n' * 12, 'a/b/a/b/k.dat': 'a b a b k dat\n' * 13,
+    'p/h.txt': 'p h OUTER\n' * 14, 'p/q/r.txt': 'p q r\n' * 15, 'p/q/p/h.txt': 'p q p h INNER\n' * 16,
+    'cfg.d/cfg.d': 'cfg.d cfg.d file\n' * 17, 'cfg.d/n.txt': 'cfg.d n\n' * 18,
+}
+
 
 def dirs_of(files, extra=()):
     d = set(extra)
@@ -105,6 +131,11 @@ LAYOUTS = {
                'list_edit': ['data/a.txt', 'data2/b.txt', 'proj/train_aug/u.txt'], 'list_rm': ['data/raw/r2.dat', 'data2/raw/q.dat', 'proj/train.csv'],
                'list_new': {'data/untracked.txt': 'u\n', 'data2/untracked2.dat': 'u2\n', 'data/rawer/untracked3.txt': 'u3\n',
                             'proj/train_aug/untracked4.txt': 'u4\n'}},
+    'repeat': {'files': FILES_R, 'cwds': ['data', 'a/b', 'p/q', 'cfg.d', 'data/data', 'a', 'a/b/a'],
+               'track': ['data/', 'a/', 'p/', 'cfg.d/', 'top.txt'], 'pretrack': ['data/x.bin', 'a/b/a/'],
+               'always': [], 'always_rm': [], 'rmtree': ['data', 'a', 'p', 'cfg.d'],
+               'list_edit': ['data/x.bin', 'a/b/a/b/f.txt', 'p/h.txt'], 'list_rm': ['data/data/z.bin', 'a/b/g.dat', 'p/q/p/h.txt'],
+               'list_new': {'data/untracked.bin': 'u\n', 'data/data/untracked.bin': 'u2\n', 'a/b/a/b/untracked.txt': 'u3\n'}},
     'mini': {'files': FILES_M, 'cwds': ['data'], 'track': ['data/', 'data2/'], 'pretrack': ['data2/b.txt'],
              'always': [], 'always_rm': [], 'rmtree': ['data', 'data2'],
              'list_edit': ['data2/b.txt'], 'list_rm': [], 'list_new': {'data2/untracked.txt': 'u\n'}},
@@ -387,13 +418,50 @@ def gen_targets(rng, cwd, shape, L=None):
     raise ValueError(shape)
 
 
+def through_repeat(cwd, rel):
+    """does the target `rel`, typed in `cwd`, go through a name that already occurs in the cwd?  2: it begins with the
+    whole root-relative cwd again (`data/x.bin` in data, `a/b/f.txt` in a/b: the typed string is itself a root-relative
+    path below the cwd); 1: one of its components is the name of the cwd or of an ancestor (`a/m.txt` in a/b, `p/h.txt`
+    in p/q, `cfg.d` in cfg.d); 0: no"""
+    comps = [c for c in rel.rstrip('/').split('/') if c]
+    if (rel.rstrip('/') + '/').startswith(cwd + '/'):
+        return 2
+    return 1 if set(comps) & set(cwd.split('/')) else 0
+
+
+REPEAT_KINDS = ['file', 'dir/', 'dir', 'glob']
+
+
+def gen_repeat_targets(rng, cwd, kind, L):
+    """one target of the given kind, typed in cwd, that goes through a repeated name -- the deepest repetition the cwd
+    offers (level 2 before level 1); the root form is the plain join cwd/target"""
+    files = [p[len(cwd) + 1:] for p in under(cwd, L['files'])]
+    subdirs = sorted({d[len(cwd) + 1:] for d in L['dirs'] if d.startswith(cwd + '/')})
+    if kind == 'file':
+        cands = files
+    elif kind in ('dir/', 'dir'):
+        cands = [d + ('/' if kind == 'dir/' else '') for d in subdirs]
+    else:
+        # globs below a sub-directory: its files by extension (`d/*.ext`, `d/?.ext`), at any depth (`d/**/*.ext`); never a
+        # pattern that also matches a recorded DIRECTORY (untrack of such a glob panics from every directory)
+        cands = []
+        for d in subdirs:
+            exts = sorted({f.rsplit('.', 1)[1] for f in files if f.startswith(d + '/') and '/' not in f[len(d) + 1:] and '.' in f})
+            for e in exts:
+                cands += [f'{d}/*.{e}', f'{d}/**/*.{e}'] + ([f'{d}/?.{e}'] if any(len(os.path.basename(f)) == len(e) + 2 for f in files if f.startswith(d + '/')) else [])
+    best = max([through_repeat(cwd, c) for c in cands], default=0)
+    cands = [c for c in cands if through_repeat(cwd, c) == best] or files
+    return [rng.choice(cands)]
+
+
 FAMILIES = ['track', 'carry-in', 'recheck', 'list', 'send', 'bring', 'remove', 'untrack', 'copy', 'move']
 SHAPES = ['file', 'files', 'dir/', 'dir', 'glob', 'mixed', 'none']
 # the families that accept "no targets" (remove and untrack too since the repair F33; copy/move take source and destination)
 NOTARGET_FAMILIES = ['track', 'carry-in', 'recheck', 'list', 'send', 'bring', 'remove', 'untrack']
 
 
-def gen_case(rng, chk, family=None, cwd=None, shape=None, layout='base', variant=None, dest_kind=None, dest_state=None, force=None, dest_spelling=None):
+def gen_case(rng, chk, family=None, cwd=None, shape=None, layout='base', variant=None, dest_kind=None, dest_state=None, force=None, dest_spelling=None,
+             repeat_kind=None):
     L = layout_of({'layout': layout})
     family = family or rng.choice(FAMILIES)
     cwd = cwd or rng.choice(L['cwds'])
@@ -402,7 +470,18 @@ def gen_case(rng, chk, family=None, cwd=None, shape=None, layout='base', variant
     case = {'family': family, 'cwd': cwd, 'variant': variant, 'opts': []}
     if layout != 'base':
         case['layout'] = layout
-    if family in ('copy', 'move'):
+    if repeat_kind:
+        # a target that goes through a repeated name (layout `repeat`); copy / move: that target is the SOURCE, the
+        # destination is a new file next to the cwd's files (file source) or a new directory (directory / glob source)
+        t = gen_repeat_targets(rng, cwd, repeat_kind, L)
+        case['shape'] = {'dir/': 'dir/', 'dir': 'dir', 'glob': 'glob'}.get(repeat_kind, 'file')
+        case['targets'] = t
+        if family in ('copy', 'move'):
+            single = repeat_kind == 'file'
+            case['targets'] = t + (['copied.' + t[0].rsplit('.', 1)[-1]] if single else ['dstdir/'])
+            case['shape'] = 'file->file' if single else ('glob->dir' if repeat_kind == 'glob' else 'dir->dir')
+            case['dest_state'] = 'absent'
+    elif family in ('copy', 'move'):
         # source and destination, both relative to the cwd (no `..`: known finding).  Destination: a file or a directory
         # `dir/`; state of the destination path before the command: absent / an UNTRACKED workspace file / already
         # tracked / an untracked file at the mirrored location <cwd>/<cwd>/<dest> only; copy with and without --force
@@ -454,6 +533,11 @@ def count_case(chk, case):
         chk.count('prefix-sibling:' + case['family'])
         if case['shape'] == 'none':
             chk.count('prefix-sibling-notargets:' + case['family'])
+    glob_targets = case['targets'][:1] if case['family'] in ('copy', 'move') and len(case['targets']) == 2 else case['targets']
+    lvl = max([through_repeat(case['cwd'], t) for t in glob_targets if case['cwd'] != '.'], default=0)
+    if lvl:
+        kind = 'glob' if any('*' in t or '?' in t for t in glob_targets) else ('dir' if case['shape'].startswith('dir') else 'file')
+        chk.count(f"repeated-name-target:{case['family']}:{kind}" + (':begins-with-cwd' if lvl == 2 else ''))
     if case['family'] in ('copy', 'move') and case['shape'] in ('file->file', 'file->dir'):
         chk.count(f"destination:{case['family']}:{case['shape'].split('->')[1]}:{case.get('dest_state', 'absent')}" + (':force' if '--force' in case['opts'] else ''))
         chk.count(f"destination-spelling:{case['family']}:{case.get('dest_spelling', 'plain')}")
@@ -919,7 +1003,18 @@ def _sp(c, spelling):
     return dict(c, dest_spelling=spelling)
 
 
+def _rp(family, cwd, shape, targets, variant=0, opts=()):
+    return {'layout': 'repeat', 'family': family, 'cwd': cwd, 'variant': variant, 'opts': list(opts), 'shape': shape, 'targets': list(targets)}
+
+
 CORPUS = [
+    # names that repeat along a path (seeded/C18-6 minimised: `remove --from-cache data/x.bin` in data, `untrack
+    # data/x.bin` with -C data -- every case runs cd and -C); a name equal to its grandparent; a file named like its
+    # directory; the inner directory as cwd; three levels of one name; a first component that repeats only part of the cwd
+    _rp('remove', 'data', 'file', ['data/x.bin']), _rp('untrack', 'data', 'file', ['data/x.bin']),
+    _rp('recheck', 'p/q', 'file', ['p/h.txt']), _rp('carry-in', 'cfg.d', 'file', ['cfg.d']),
+    _rp('bring', 'data/data', 'file', ['data/w.bin']), _rp('send', 'data', 'dir', ['data/data']),
+    _rp('recheck', 'a/b', 'file', ['a/m.txt']), _rp('list', 'a', 'glob', ['b/a/b/*.txt']),
     # seeded/C18-3 (minimised): a DESTINATION that climbs out of the cwd with `..` (XvcPath::new normalises it; a plain
     # join records data/../other/a.txt): move and copy, file and directory form, climbing and coming back; one level
     # (mini, cwd data) and two levels (prefix, cwd data/raw: ../../other/a.txt, ../clean/b.txt, ../raw/c2.txt as in demo.sh)
@@ -1084,7 +1179,7 @@ def run(chk: Check):
         'file and directory names are literal: letters, digits, `.`, `-`, `_` (glob metacharacters in names: known gap of the unchanged binary, not generated)',
         'messages are not compared (only effects and the rows of `list`); a differing number of [ERROR] lines between the directories is counted in the distribution (error-line-count-differs-between-directories:<family>)',
     ]
-    n = 60 if quick else 1000
+    n = 40 if quick else 1000
     cases = [dict(c) for c in CORPUS]
     for c in cases:
         count_case(chk, c)
@@ -1131,13 +1226,23 @@ def run(chk: Check):
                 k += 1
                 cases.append(gen_case(chk.rng, chk, fam, cw[k % len(cw)], layout=layout, dest_kind=('file', 'dir')[k % 2],
                                       dest_state=('absent', 'untracked', 'absent', 'tracked')[k % 4], force=False, dest_spelling=sp))
-    cases += [gen_case(chk.rng, chk, layout='prefix' if i % 5 in (1, 3) else 'base') for i in range(n)]
-    chk.extra['rule'] = (f'corpus ({len(CORPUS)} fixed cases: seeded/C18-3 minimised (destination climbing with `..` from a subdirectory), seeded/C18-2 minimised (copy onto an untracked file from a subdirectory), seeded/C18-1 minimised (no targets next to a sibling whose name extends the name of the cwd), F3, directory-slash rule with an absent directory, K9b, track without targets / with -C) + {len(KNOWN_REPLAYS)} known-finding replays + '
+    # names that repeat along a path, systematic: every family x (file, dir/, glob) target that goes through the repeated
+    # name, typed in a cwd whose own root-relative path occurs again inside it (depth 1 `data`, depth 2 `a/b`, rotated),
+    # every file actionable (variant 0); `dir` without slash and the other cwds of the layout come with the corpus and
+    # the random part (there the targets are drawn from ALL files / directories / globs below the cwd)
+    for fam in FAMILIES:
+        for kind in ('file', 'dir/', 'glob'):
+            k += 1
+            cases.append(gen_case(chk.rng, chk, fam, ('data', 'a/b')[k % 2], layout='repeat', variant=0, repeat_kind=kind))
+    cases += [gen_case(chk.rng, chk, layout=('base', 'prefix', 'repeat', 'prefix', 'base')[i % 5]) for i in range(n)]
+    chk.extra['rule'] = (f'corpus ({len(CORPUS)} fixed cases: seeded/C18-6 minimised (a target that begins with the name of the cwd, typed in a directory that contains a directory of its own name), seeded/C18-3 minimised (destination climbing with `..` from a subdirectory), seeded/C18-2 minimised (copy onto an untracked file from a subdirectory), seeded/C18-1 minimised (no targets next to a sibling whose name extends the name of the cwd), F3, directory-slash rule with an absent directory, K9b, track without targets / with -C) + {len(KNOWN_REPLAYS)} known-finding replays + '
                          f'every command family (track, carry-in, recheck, list, send, bring, remove, untrack, copy, move) x every depth 1-3 with rotating target shapes + '
                          f'adversarial-name layout (data / data2 / data-old / data.bak / datafile.txt / da, data/raw / data/rawer / data/raw.txt, proj/train / proj/train_aug / proj/train.csv / proj/tr): '
                          f'copy / move destinations on both layouts: file and directory destination x (absent, untracked workspace file, tracked, untracked file at <cwd>/<cwd>/<dest> only), copy with and without --force (48 cases incl. the destination argument existing only where the PROCESS stands; exit class compared; direct guard oracle: without --force an untracked file is neither overwritten nor recorded; model copyDest/copyRefused vs binary); '
                          f'destination spellings ({", ".join(SPELLINGS[1:])}) x copy / move x both layouts (28 cases; the root form uses the normalised root-relative destination; follow-up list / rm + recheck by the real path compared; recorded paths without `..`); '
-                         f'no targets for every family that accepts it ({", ".join(NOTARGET_FAMILIES)}) x every cwd with such a sibling ({", ".join(sib_cwds)}) with every file actionable, and every family x 2 cwds (copy, move: 1) with explicit targets + {n} random cases, 2 in 5 on the adversarial layout; every copy / move case and one in 3 of the others also runs form D: process cwd outside the repository, -C <absolute path> '
+                         f'names that repeat along a path (layout repeat: data/data/x.bin next to data/x.bin, data/data/data, a/b/a/b next to a/b, p/q/p next to p, the file cfg.d/cfg.d): '
+                         f'every family x (file, dir/, glob) target that goes through the repeated name, typed in data and in a/b, every file actionable (30 cases, counters repeated-name-target:<family>:<kind>[:begins-with-cwd]) + 8 corpus cases (seeded/C18-6 minimised, grandparent name, file named like its directory, inner cwd, dir without slash); '
+                         f'no targets for every family that accepts it ({", ".join(NOTARGET_FAMILIES)}) x every cwd with such a sibling ({", ".join(sib_cwds)}) with every file actionable, and every family x 2 cwds (copy, move: 1) with explicit targets + {n} random cases, 2 in 5 on the adversarial layout, 1 in 5 on the repeated-name layout; every copy / move case and one in 3 of the others also runs form D: process cwd outside the repository, -C <absolute path> '
                          '(family, cwd of depth 1-3, shape in file / two files / dir/ / dir / glob / file+glob / no targets, option variants --recheck-method, --force, preparation variants incl. tracked '
                          'with copy/symlink/hardlink, edited files, deleted files, a whole directory deleted). Every case: one prepared repository, three byte-identical copies, the command from the root with '
                          'root-relative targets (A), from the subdirectory (B) and with -C (C); abstractions of A/B and A/C compared; model selection vs paths touched in B. '
